@@ -173,6 +173,15 @@ def build(c, variant):
         c.assume(eh != 0)
         fs.loc[labels[:2]].exptset(rsome.E(z) >= el, rsome.E(z) <= eh)
         w.events.append(([0, 1], el, eh))
+    elif variant.get("expt") in ("non-contiguous", "non-contiguous-by-label"):
+        # an event of the first and the LAST of three scenarios (positions / labels): its mass is p0 + p2, not p0 + p1 + p2
+        el, eh = c.fresh_real("el"), c.fresh_real("eh")
+        c.assume(el < eh)
+        c.assume(el != 0)
+        c.assume(eh != 0)
+        ev = fs.loc[[labels[0], labels[2]]] if variant.get("expt") == "non-contiguous-by-label" else fs[[0, 2]]
+        ev.exptset(rsome.E(z) >= el, rsome.E(z) <= eh)
+        w.events.append(([0, 2], el, eh))
     elif variant.get("expt") in ("overlap", "overlap-reversed"):
         # scenario 1 belongs to two events: every event containing s contributes its beta to scenario s
         decl = [([0, 1], "A"), ([1], "B")]
@@ -388,6 +397,8 @@ VARIANTS = {
     "event,R-objective,expt-per-scenario,E-maxof-constraint": dict(obj="R", expt="per-scenario", adapt="event", econstr="maxof"),
     "event,E-affine,expt-all,convex-constraints": dict(obj="E-affine", expt="all", adapt="event", convex=True),
     "event-wise-bound,E-affine,expt-all,convex-constraints": dict(obj="E-affine", expt="all", adapt="event-y", convex=True),
+    "static,E-affine,three-scenarios,non-contiguous-event": dict(obj="E-affine", expt="non-contiguous", labels=[0, 1, 2]),
+    "event,E-affine,econstr,labels=(2,0,1),non-contiguous-event-by-label": dict(obj="E-affine", expt="non-contiguous-by-label", labels=[2, 0, 1], adapt="event-by-label", econstr=True),
     "static,E-affine,labels=(1,2,3),event-of-two-by-label": dict(obj="E-affine", expt="first-two-by-label", labels=[1, 2, 3]),
     "event,E-affine,labels=(2,0,1),event-of-two-by-label": dict(obj="E-affine", expt="first-two-by-label", labels=[2, 0, 1], adapt="event-by-label"),
 }
